@@ -12,6 +12,20 @@ for d in sorted(os.listdir(S)):
     notes = open(os.path.join(p, 'notes.md')).read() if os.path.exists(os.path.join(p, 'notes.md')) else ''
     old = json.load(open(os.path.join(p, 'meta.json'))) if os.path.exists(os.path.join(p, 'meta.json')) else {}
     fired = m.get(d, {}).get('fired', [])
+    if d.startswith('own-'):
+        prop = {'own-C04-placeholder': 'C04', 'own-W1-dl-early-break': 'C06', 'own-W2-ich-guard': 'C13', 'own-W3-display-continue': 'C01', 'own-W4-reset-step': 'C18'}.get(d, '?')
+        meta = {
+            'id': d, 'breaks_property': prop,
+            'origin': 'written by the author of the checks as a firing test for one rule (not an independent seed)' +
+                      ('; a one-line break on top of the refactoring benign-R23 (counting while loops)' if '-W' in d else ''),
+            'confirmed_by_me': {'command': 'cargo test --workspace --no-fail-fast --offline with the patch applied', 'result': ver,
+                                'note': 'W1 and W2 are also caught by the existing unit tests; they are kept only to show that the loop rules fire on the counting-while form'},
+            'checks_run': 'tools/matrix.py (every registered quick check)',
+            'detected_by': fired,
+        }
+        json.dump(meta, open(os.path.join(p, 'meta.json'), 'w'), indent=1)
+        print(d, fired)
+        continue
     if d.startswith('benign-'):
         meta = {
             'id': d, 'kind': 'behaviour-preserving refactoring (must not be reported by any check)',
